@@ -43,6 +43,11 @@ def unit_kani_elf(tier, prop):
     return kani_elf.run(tier, prop)
 
 
+def unit_kani_disp(tier, prop):
+    from .units import kani_disp
+    return kani_disp.run(tier, prop)
+
+
 def unit_scan_c20(tier, prop):
     from .units import scan_c20
     return scan_c20.run(tier, prop)
@@ -54,6 +59,7 @@ UNITS = {
     "kani_stk": unit_kani_stk,
     "verus_pipe": unit_verus_pipe,
     "kani_elf": unit_kani_elf,
+    "kani_disp": unit_kani_disp,
     "kani_l3": unit_kani_l3,
     "kani_l0": unit_kani_l0,
     "verus_memory": lambda tier, prop: unit_verus_memory(tier),
@@ -61,7 +67,7 @@ UNITS = {
 }
 
 PROP_UNITS = {
-    "C01": ["kani_l2"],
+    "C01": ["kani_l2", "kani_disp"],
     "C02": ["kani_l2", "kani_l0"],
     "C03": ["kani_l2"],
     "C04": ["kani_l2"],
@@ -72,14 +78,14 @@ PROP_UNITS = {
     "C09": ["verus_memory", "kani_l2", "kani_l0m"],
     "C10": ["verus_memory", "kani_l0m"],
     "C11": ["kani_l3", "kani_l2"],
-    "C12": ["kani_l3"],
+    "C12": ["kani_l3", "kani_disp"],
     "C13": ["kani_l3", "verus_memory"],
     "C14": ["verus_pipe", "kani_l3"],
     "C15": ["kani_elf"],
     "C16": ["kani_elf"],
     "C17": ["kani_stk", "verus_memory"],
     "C18": ["kani_l3", "kani_l2"],
-    "C19": ["kani_l2", "verus_memory", "kani_l0", "kani_l3", "verus_pipe"],
+    "C19": ["kani_l2", "verus_memory", "kani_l0", "kani_l3", "verus_pipe", "kani_disp"],
     "C20": ["scan_c20"],
 }
 
@@ -159,7 +165,7 @@ def run(prop, tier, seed, t0):
             return dict(replay_note="replay skipped: at most three violations per run are replayed (each costs a solver run)")
         if o.get("unit") == "kani_l2" and o["id"].startswith("l2|"):
             return replay.replay_l2_obligation(o, tier)
-        if o.get("unit") in ("kani_l0", "kani_l0m", "kani_l3", "kani_stk", "kani_elf") and o.get("harness"):
+        if o.get("unit") in ("kani_l0", "kani_l0m", "kani_l3", "kani_stk", "kani_elf", "kani_disp") and o.get("harness"):
             return replay.replay_generic_obligation(o)
         return {}
     cat = CLAIMS.get(prop, {}).get("category", "proof")
